@@ -190,6 +190,8 @@ pub struct Dump {
   pub n_edges: usize,
   /// Structural problems found while converting (unknown node payloads, asymmetric edges, rank violations).
   pub problems: Vec<String>,
+  /// No dump could be taken at this point (the pie session was still open); nothing to compare.
+  pub absent: bool,
 }
 
 fn dkind(k: EdgeKind) -> DKind {
@@ -203,7 +205,7 @@ pub fn convert(d: &StoreDump) -> Dump {
   let mut out = Dump::default();
   out.n_nodes = d.nodes.len();
   let ids: Vec<NodeId> = d.nodes.iter().map(|n| match &n.kind {
-    NodeKind::Task { task, .. } => task.as_ref().as_any().downcast_ref::<Prog>().map(|p| NodeId::T(p.id)).unwrap_or(NodeId::Unknown),
+    NodeKind::Task { task, .. } => crate::prog::prog_of_key(task.as_ref().as_any()).map(|p| NodeId::T(p.id)).unwrap_or(NodeId::Unknown),
     NodeKind::Resource(r) => r.as_ref().as_any().downcast_ref::<Res>().map(|r| NodeId::R(r.0)).unwrap_or(NodeId::Unknown),
   }).collect();
   // ranks: bijection onto 1..=n
@@ -231,7 +233,7 @@ pub fn convert(d: &StoreDump) -> Dump {
           // the dependency's own target key must be the node it points to
           if let Some(t) = &e.target {
             let ok = match ids[o] {
-              NodeId::T(t2) => t.as_ref().as_any().downcast_ref::<Prog>().map_or(false, |p| p.id == t2),
+              NodeId::T(t2) => crate::prog::prog_of_key(t.as_ref().as_any()).map_or(false, |p| p.id == t2),
               NodeId::R(r2) => t.as_ref().as_any().downcast_ref::<Res>().map_or(false, |r| r.0 == r2),
               NodeId::Unknown => false,
             };
@@ -277,7 +279,7 @@ pub fn convert(d: &StoreDump) -> Dump {
   }
   // key maps must point at the right nodes
   for (k, i) in &d.task_map {
-    let id = k.as_ref().as_any().downcast_ref::<Prog>().map(|p| p.id);
+    let id = crate::prog::prog_of_key(k.as_ref().as_any()).map(|p| p.id);
     match (id, i) {
       (Some(id), Some(i)) if ids[*i] == NodeId::T(id) => {}
       _ => out.problems.push(format!("task map entry {:?} -> {:?} is wrong", k, i)),
